@@ -36,7 +36,7 @@ ASSUMPTIONS = ["oracle = the eager rendering of the same statement; integer-valu
                "running error of the Laplace expansions for cof/adj/det n<=4); elements whose bound exceeds 1e-3 of the result scale are counted, not judged",
                "chain programs are additionally compared with the explicit left-to-right product evaluated in long double (equal for exact draws, within 2*E otherwise)",
                "operands of inv/solve/cof/adj/det are built from diagonally dominant integer matrices (positive diagonal), conditioning is measured, not assumed",
-               "complex scalar*tensor, tensor/complex-scalar and unary minus are kept out of the generated trees (known unrelated defects); the lazy form v % A (vector on the left) is rejected by the library and not generated",
+               "complex scalar*tensor and tensor/complex-scalar are kept out of the generated trees (known unrelated defects); unary minus is a tree node (on lazy nodes too); the lazy form v % A (vector on the left) is rejected by the library and not generated",
                "for += and -= the right operand of an add/sub node that needs staged evaluation is restricted to what Aliasing.h can inspect (tensors, +,-,*,%,trans); the forms outside "
                "(a literal/det scalar factor or inv/cof/adj/ctrans on the right of + or -) do not compile in any configuration and appear only as gap/ programs"]
 EXHAUSTIVE_SPACE = None
@@ -57,7 +57,7 @@ class N:
 
 LAZY = ("mm", "trans", "ctrans", "inv", "cof", "adj")            # expression nodes (requires_evaluation)
 EVAL = LAZY + ("solve", "sfac")                                   # nodes with an eager counterpart
-ELEM = ("add", "sub", "mul", "smul", "muls", "sadd", "ssub")
+ELEM = ("add", "sub", "mul", "smul", "muls", "sadd", "ssub", "neg")
 
 
 def has(n, kinds):
@@ -112,6 +112,9 @@ def sites(n, mode, dst_is_D, out):
     if k in LAZY:
         for c in n.ch:
             sites(c, "eq", False, out)
+        return
+    if k == "neg":                                  # unary math nodes evaluate an operand that needs evaluation into a temporary (unary_math_ops.h)
+        sites(n.ch[0], "eq", False, out)
         return
     if mode == "as":
         if k in ("add", "sub"):
@@ -175,6 +178,8 @@ def lazy_src(n):
         return "D"
     if k in ("add", "sub", "mul"):
         return "(%s %s %s)" % (lazy_src(n.ch[0]), {"add": "+", "sub": "-", "mul": "*"}[k], lazy_src(n.ch[1]))
+    if k == "neg":
+        return "(-%s)" % lazy_src(n.ch[0])
     if k == "smul":
         return "(T(%d) * %s)" % (n.c, lazy_src(n.ch[0]))
     if k == "muls":
@@ -217,6 +222,8 @@ def eager_src(n, cx):
         return "D"
     if k in ("add", "sub", "mul"):
         return "(%s %s %s)" % (eager_src(n.ch[0], cx), {"add": "+", "sub": "-", "mul": "*"}[k], eager_src(n.ch[1], cx))
+    if k == "neg":
+        return "(-%s)" % eager_src(n.ch[0], cx)
     if k == "smul":
         return "(T(%d) * %s)" % (n.c, eager_src(n.ch[0], cx))
     if k == "muls":
@@ -252,6 +259,8 @@ def tokens(n, out):
     elif k in ("add", "sub", "mul", "mm", "solve"):
         tokens(n.ch[0], out); tokens(n.ch[1], out)
         out += [TK[{"add": "ADD", "sub": "SUB", "mul": "MUL", "mm": "MM", "solve": "SOLVE"}[k]]]
+    elif k == "neg":
+        tokens(n.ch[0], out); out += [TK["SMUL"], -1]
     elif k in ("smul", "muls"):
         tokens(n.ch[0], out); out += [TK["SMUL"], n.c]
     elif k == "sadd":
@@ -276,6 +285,8 @@ def mag_bound(n, L):
         return mag_bound(n.ch[0], L) + mag_bound(n.ch[1], L)
     if k == "mul":
         return mag_bound(n.ch[0], L) * mag_bound(n.ch[1], L)
+    if k == "neg":
+        return mag_bound(n.ch[0], L)
     if k in ("smul", "muls"):
         return n.c * mag_bound(n.ch[0], L)
     if k in ("sadd", "ssub"):
@@ -516,7 +527,10 @@ def gen_ew(P, shape, depth, rng, approx, allowD, needlazy):
             a, b = b, a
         return N(k, [a, b], shape=shape)
     if r < 0.82:
-        k = rng.choice(["smul", "muls", "sadd", "ssub"])
+        k = rng.choice(["smul", "muls", "sadd", "ssub", "neg", "neg"])
+        if k == "neg":       # unary minus, preferably directly on a lazy node (its compound-assignment overloads are generated from a separate table)
+            inner = gen_lazy(P, shape, depth, rng, approx) if (needlazy or rng.random() < 0.5) else gen_ew(P, shape, depth - 1, rng, approx, allowD, needlazy)
+            return N("neg", [inner], shape=shape)
         return N(k, [gen_ew(P, shape, depth - 1, rng, approx, allowD, needlazy)], shape=shape, c=rng.choice([2, 3]))
     if r < 0.90 and approx:
         n = rng.choice([2, 3, 5])
@@ -740,4 +754,4 @@ def evidence_extra(tier, seed):
         k = p["alias"] + ("+sar" if p["kf"] else "")
         al[k] = al.get(k, 0) + 1
     return dict(programs=len(progs) + len(cpl) + len(gaps), chain_decision_strings=dict(sorted(dec.items())), alias_classes=dict(sorted(al.items())),
-                excluded_from_composites="scalar*complex, complex/scalar, unary minus, v % A, staged += / -= forms Aliasing.h cannot inspect (5 gap/ programs exercise them alone)")
+                excluded_from_composites="scalar*complex, complex/scalar, v % A, staged += / -= forms Aliasing.h cannot inspect (5 gap/ programs exercise them alone)")
